@@ -423,3 +423,53 @@ class Gen:
         if r < 0.75:
             return ("compound", rng.choice(["add", "add", "sub", "mul"]), self.lhs(), self.value_expr())
         return ("del", self.lhs() if rng.random() < 0.7 else ("union", self.lhs(), self.lhs()))
+
+    # ------------------------------------------------------------ derived containers (C03 / C16)
+    def derive(self):
+        """an expression producing a container that was rebuilt by an operator"""
+        rng = self.rng
+        seqs = [p for p in doc_paths(self.doc) if isinstance(_get(self.doc, p), list)] if self.doc is not None else []
+        base = path_expr(rng.choice(seqs)) if seqs and rng.random() < 0.85 else ("self",)
+        r = rng.random()
+        if r < 0.15:
+            f = ("sort",)
+        elif r < 0.3:
+            f = ("reverse",)
+        elif r < 0.42:
+            f = ("slice", ("self",), lit(rng.choice([0, 1, -2])), lit(rng.choice([2, 3, -1, 10])))
+        elif r < 0.52:
+            f = ("map", rng.choice([("self",), ("add", ("self",), lit(1)), ("select", ("ne", ("self",), lit(1)))]))
+        elif r < 0.6:
+            f = ("filter", ("ne", ("self",), lit(rng.choice([1, 2, "a"]))))
+        elif r < 0.7:
+            f = ("add", ("self",), ("collect", ("union", lit(9), lit("n"))))
+        elif r < 0.78:
+            f = ("collect", ("union", ("index", ("self",), lit(1)), ("index", ("self",), lit(0))))
+        elif r < 0.86:
+            f = ("unique",)
+        elif r < 0.93:
+            f = ("flatten", rng.choice([-1, 1]))
+        else:
+            f = ("sort_by", ("self",))
+        return ("pipe", base, f)
+
+    def derived_query(self):
+        rng = self.rng
+        f = self.derive()
+        r = rng.random()
+        if r < 0.4:
+            sel = rng.choice([("index", ("self",), lit(rng.choice([0, 1, 2, -1]))),
+                              ("pipe", ("index", ("self",), None), ("select", (rng.choice(["lt", "gt", "eq"]), ("self",), lit(rng.choice([1, 2, 5]))))),
+                              ("union", ("index", ("self",), lit(0)), ("index", ("self",), lit(2)))])
+            return ("pipe", f, ("del", sel))
+        if r < 0.7:
+            return ("pipe", f, ("pipe", ("index", ("self",), None), ("path",)))
+        if r < 0.85:
+            return ("pipe", f, ("pipe", ("recurse",), ("path",)))
+        return ("pipe", f, ("pipe", ("index", ("self",), None), ("key",)))
+
+
+def _get(v, p):
+    for s in p:
+        v = v[s]
+    return v
